@@ -245,3 +245,44 @@ def base_rate_pair(rng, fmt, n, den=16):
     i = rng.randrange(n)
     a2[i] = step(fmt, a2[i], rng.choice([1, 2, 4, 5, 8])) if a2[i] > 0 else a2[i]
     return a1, a2, "ulps"
+
+
+# ---------------------------------------------------------------- exact decoding of implementation outputs (cross-case checks)
+def decode(fmt, tok):
+    """hex token -> Fraction (exact) or None for NaN/inf"""
+    bits = int(tok, 16)
+    x = bits_to_float(fmt, bits)
+    if x != x or x in (float("inf"), float("-inf")):
+        return None
+    return Fr(x)
+
+
+def impl_values(r):
+    """(class, [Fraction|None ...], [flags]) from a result dict"""
+    toks = r["impl"].split(" ")
+    fmt = r["case"].split(" ")[1]
+    cls = toks[0]
+    vals, flags = [], []
+    for t in toks[1:]:
+        if t in ("T", "F"):
+            flags.append(t == "T")
+        elif t.startswith("rej="):
+            continue
+        elif cls == "ok":
+            vals.append(decode(fmt, t))
+    return cls, vals, flags
+
+
+def close_lists(tol, xs, ys):
+    if len(xs) != len(ys):
+        return False
+    for x, y in zip(xs, ys):
+        if x is None or y is None:
+            if x is not y:
+                return False
+        elif abs(x - y) > tol:
+            return False
+    return True
+
+
+TAU_SPEC = {"f64": Fr(1, 2 ** 40), "f32": Fr(1, 2 ** 14)}
